@@ -43,7 +43,8 @@ AtStart(h) == IF LimitAtUse(h) # NoLimit THEN "set"
               ELSE IF h \in {"set-then-none", "set-decl-none"} THEN "none" ELSE "default"
 Uses(p) == CASE p = "act" -> {"actor-command-line", "actor-shell", "actor-file", "actor-source", "stdin-from-program"}
              [] p = "assert" -> {"run", "shell", "percent", "file-from-stdout", "transformer-run", "text-matcher-run",
-                                 "file-matcher-run", "exit-code-from", "stdout-from", "env-from-stdout"}
+                                 "file-matcher-run", "exit-code-from", "stdout-from", "env-from-stdout",
+                                 "stdout-from-transformed"}      \* (the program is the TRANSFORMER of another's output)
              [] OTHER -> {"run", "shell", "percent", "file-from-stdout", "transformer-run", "env-from-stdout"}
 Dur(c) == IF c = "short" THEN ShortDur ELSE LongDur
 
